@@ -85,6 +85,7 @@ type relCase struct {
 	Kind   string  `json:"kind"` // rel | rels
 	R      yRel    `json:"r"`
 	Schema []yType `json:"schema"`
+	Filler bool    `json:"filler"` // the schema is listed together with relFiller
 }
 
 func permutations(n int) [][]int {
@@ -110,7 +111,17 @@ func permutations(n int) [][]int {
 	return out
 }
 
+// relFiller: one more type with three one-way relationships to itself - a listing of four entries and
+// more has an order to keep that a listing of one or two has not
+var relFiller = yType{Name: symOf("gh"), Rels: []yRel{
+	{FT: symOf("gh"), FN: symOf("f"), To1: true, TT: symOf("gh"), TN: symName{}},
+	{FT: symOf("gh"), FN: symOf("d"), To1: false, TT: symOf("gh"), TN: symName{}},
+	{FT: symOf("gh"), FN: symOf("e"), To1: true, TT: symOf("gh"), TN: symName{}}}}
+
 func runRelCase(c relCase) relEvent {
+	if c.Filler {
+		c.Schema = append(append([]yType{}, c.Schema...), relFiller)
+	}
 	ev := relEvent{Ev: c.Kind, R: c.R, Schema: c.Schema, Perms: [][]yRel{}, Ret: "ok"}
 	if ev.Schema == nil {
 		ev.Schema = []yType{}
@@ -308,6 +319,15 @@ func relMain(args []string) {
 		b, err := os.ReadFile(*replay)
 		must(err)
 		must(json.Unmarshal(b, &rf))
+		// the cases run just before in the same process (what is remembered per name comes from them)
+		var pre struct {
+			Prelude []relCase `json:"prelude"`
+		}
+		if json.Unmarshal(b, &pre) == nil {
+			for _, pc := range pre.Prelude {
+				catch(func() { runRelCase(pc) })
+			}
+		}
 		os.Stdout.Write(jsonLine(runRelCase(rf.Case)))
 		return
 	}
@@ -352,10 +372,22 @@ func relMain(args []string) {
 		schemas = schemas[:*sample]
 		stt.Exhaustive = false
 	}
-	for _, s := range schemas {
+	for si, s := range schemas {
 		stt.States++
-		for k := 0; k < *reps; k++ {
+		for k := 0; k < *reps+1; k++ {
 			c := relCase{Fam: "rel", Kind: "rels", Schema: s}
+			if k == *reps {
+				// once more next to a type with three relationships of its own (a longer listing)
+				hasGH := false
+				for _, t := range s {
+					hasGH = hasGH || t.Name.String() == "gh"
+				}
+				if si%3 != 0 || len(s) > 3 || hasGH {
+					continue
+				}
+				c.Filler = true
+				stt.class("rels:longer-listing")
+			}
 			ev := runRelCase(c)
 			stt.Calls += 2 * len(ev.Perms)
 			n := 0
